@@ -2,7 +2,7 @@
    and followed by Print Assumptions.  catp (the Unicode tables behind \d \s \w) is
    universally quantified: the statements hold for every category table. *)
 From Coq Require Import List NArith ZArith Bool.
-From Verif Require Import Common.Str C01.Model_C01 C01.Proofs_C01.
+From Verif Require Import Common.Str Common.Json C01.Model_C01 C01.Proofs_C01.
 Import ListNotations.
 Open Scope Z_scope.
 
@@ -160,3 +160,54 @@ Theorem C01_strategy_cache_refuted : exists calls,
   run_calls [] calls <> map snd calls /\ nth 1 (run_calls [] calls) (false, CodecAscii) = (true, CodecUtf8).
 Proof. exists calls_two. exact cache_refuted. Qed.
 Print Assumptions C01_strategy_cache_refuted.
+
+(* Aliasing (Model_C01 section 9: Python containers with identities, every modelled function returns the log of the mutations it
+   performed; apply_log log o is what a live object o looks like after the call).
+   to_json_schema_recursive as the code calls it (copy = true: deepclone first) does not change ANY object that was alive when the
+   call started (identities below the allocation counter n) - in particular not the schema it was given, nor the raw document that
+   contains it.  All schemas (any nesting, any keywords), both directions (readOnly / writeOnly rewriting), every fuel. *)
+Theorem C01_conversion_leaves_live_objects_unchanged : forall fuel resp n t r lg n' o,
+  transform fuel true resp n t = Some (r, lg, n') -> lt_ids n o = true -> apply_log lg o = o.
+Proof. exact conversion_pure. Qed.
+Print Assumptions C01_conversion_leaves_live_objects_unchanged.
+
+(* the same for one level (converter.to_json_schema itself) *)
+Theorem C01_to_json_schema_leaves_live_objects_unchanged : forall resp n t o,
+  lt_ids n o = true -> apply_log (snd (fst (to_json_schema true resp n t))) o = o.
+Proof. exact level_pure. Qed.
+Print Assumptions C01_to_json_schema_leaves_live_objects_unchanged.
+
+(* the one call site with copy = False (rewritten_components) converts a deepclone in place: the raw document is not touched either *)
+Theorem C01_inplace_conversion_of_a_clone_leaves_live_objects_unchanged : forall fuel resp n t r lg n' o,
+  transform fuel false resp (snd (deepclone n t)) (fst (deepclone n t)) = Some (r, lg, n') -> lt_ids n o = true -> apply_log lg o = o.
+Proof. exact inplace_on_clone_pure. Qed.
+Print Assumptions C01_inplace_conversion_of_a_clone_leaves_live_objects_unchanged.
+
+(* A history on ONE loaded schema: response-side conversions of objects of the raw document (ConvertingResolver.resolve while a
+   response is validated, get_response_schema), lazy initialisation of operations (resolve_all + request-side conversion) and the
+   lazy construction of rewritten_components (in-place conversion of a deepclone), in any order and number.  The raw document after the history is the raw document before it ... *)
+Theorem C01_raw_document_unchanged_by_history : forall fuel h store store',
+  run fuel true store h = Some store' -> store' = store.
+Proof. exact run_pure. Qed.
+Print Assumptions C01_raw_document_unchanged_by_history.
+
+(* ... hence the schema an operation generates its positive bodies from does not depend on what was converted or validated
+   before the operation was initialised *)
+Theorem C01_generation_schema_history_independent : forall fuel h store store' body,
+  run fuel true store h = Some store' -> gen_schema fuel true store' body = gen_schema fuel true store body.
+Proof. exact gen_schema_history_independent. Qed.
+Print Assumptions C01_generation_schema_history_independent.
+
+(* non-vacuity / sensitivity: on a User component with a required writeOnly password the response-side conversion does rewrite
+   (non-empty mutation log, password dropped from the RESULT), the document is unchanged and an operation initialised afterwards
+   still requires password; with an in-place conversion instead (copy = false) the same one-step history changes the document and
+   the generation schema loses the required property *)
+Theorem C01_history_examples :
+  (exists r lg n', transform 20 true true (bound ex_store) (match d_get k_u ex_store with Some d => d | None => PA ANull end) = Some (r, lg, n')
+                   /\ lg <> [] /\ j_required_has [112]%N (Some (erase r)) = false) /\
+  run 20 true ex_store [EvConvert k_u true; EvInit ex_body] = Some ex_store /\
+  j_required_has [112]%N (gen_erased 20 true ex_store ex_body) = true /\
+  (exists s', run 20 false ex_store [EvConvert k_u true] = Some s' /\ erase s' <> erase ex_store /\
+              j_required_has [112]%N (gen_erased 20 true s' ex_body) = false).
+Proof. exact history_examples. Qed.
+Print Assumptions C01_history_examples.
